@@ -176,7 +176,7 @@ def boundary_values(tier, rng):
 # name -> (setk, build(v) -> object, [(getk, read(obj))], reparse(obj) -> object, node(obj) -> lxml node holding the attributes)
 def carriers(O):
     Cell, Row, Table, Element = O.Cell, O.Row, O.Table, O.Element
-    from odfdo.variable import VarSet, UserFieldDecl, UserDefined
+    from odfdo.variable import VarSet, UserFieldDecl, UserDefined, VarGet, UserFieldGet, UserFieldInput
     reparse = lambda o: Element.from_tag(o.serialize())
     ident = lambda o: node_of(o)
 
@@ -232,6 +232,9 @@ def carriers(O):
         "UserFieldDecl(v)": ("SetET", lambda v: UserFieldDecl(name="n", value=v), et, reparse, ident),
         "UserFieldDecl.set_value": ("SetET", ufd2, et, reparse, ident),
         "UserDefined(v)": ("SetET", lambda v: UserDefined(name="n", value=v), et, reparse, ident),
+        "VarGet(v)": ("SetET", lambda v: VarGet(name="n", value=v), et, reparse, ident),
+        "UserFieldGet(v)": ("SetET", lambda v: UserFieldGet(name="n", value=v), et, reparse, ident),
+        "UserFieldInput(v)": ("SetET", lambda v: UserFieldInput(name="n", value=v), et, reparse, ident),
     }, cell_in
 
 
@@ -273,9 +276,29 @@ def drive(O, vals, with_docs=True):
         okr, r = limited(lambda: meta_doc.meta.get_user_defined_metadata()["k%d" % i])
         if not okr:      # one unreadable entry must not hide the others: read it alone
             okr, r = limited(lambda: meta_doc.meta.get_user_defined_metadata_of_name("k%d" % i)["value"])
-        per[("Meta", i)] = dict(setk="SetMeta", written="(Ok %s)" % a, reads=["(GetMeta, %s, %s)" % (a, c_res(okr, r))], obj=True)
+        reads = ["(GetMeta, %s, %s)" % (a, c_res(okr, r))]
+        if okr:          # the other readers of the same entry: by name, the property, as_dict()
+            for rd in (lambda: meta_doc.meta.get_user_defined_metadata_of_name("k%d" % i)["value"],
+                       lambda: meta_doc.meta.user_defined_metadata["k%d" % i],
+                       lambda: [x for x in meta_doc.meta.as_dict()["meta:user-defined"] if x["meta:name"] == "k%d" % i][0]["value"]):
+                ok2, r2 = limited(rd); reads.append("(GetMeta, %s, %s)" % (a, c_res(ok2, r2)))
+        per[("Meta", i)] = dict(setk="SetMeta", written="(Ok %s)" % a, reads=reads, obj=True)
         if not okr:
             limited(lambda: meta_doc.meta.set_user_defined_metadata("k%d" % i, "unreadable"))
+    # Meta.user_defined_metadata = {...}: all readable values at once through the dict setter of a second document
+    dict_doc = Document("text")
+    good = {"k%d" % i: v for i, v in enumerate(vals) if per[("Meta", i)]["obj"] is not None and "@Err" not in per[("Meta", i)]["reads"][0]}
+    okd, _ = limited(lambda: setattr(dict_doc.meta, "user_defined_metadata", good))
+    for i, v in enumerate(vals):
+        key = "k%d" % i
+        if key not in good:
+            continue
+        if not okd:
+            per[("Meta dict setter", i)] = dict(setk="SetMeta", written="(@Err elem)", reads=[], obj=None); continue
+        node = [n for n in node_of(dict_doc.meta.root).iter(Q("meta", "user-defined")) if n.get(Q("meta", "name")) == key]
+        a = abs_elem(node[0] if node else None, meta=True)
+        okr, r = limited(lambda: dict_doc.meta.user_defined_metadata[key])
+        per[("Meta dict setter", i)] = dict(setk="SetMeta", written="(Ok %s)" % a, reads=["(GetMeta, %s, %s)" % (a, c_res(okr, r))], obj=None)
     if with_docs:
         # leg 3: documents saved to BytesIO and reopened; the stored attributes are read from the zip bytes with lxml
         sheet = Document("spreadsheet"); sheet.body.clear()
@@ -348,7 +371,7 @@ def drive(O, vals, with_docs=True):
 # ---------------------------------------------------------------- histories: a value stored on a carrier that already holds one
 def history_values():
     """one representative per ODF value type (two where the lattice has a corner), plus None and the empty string"""
-    return [None, True, 42, 1.5, Decimal("2.50"), "x", "true", "", date(2024, 2, 29),
+    return [None, True, False, 42, 0, 1.5, 0.0, Decimal("2.50"), Decimal("0.00"), "x", "true", "", date(2024, 2, 29), date(1, 1, 1), timedelta(0),
             datetime(2024, 1, 1, 12, 0, 0, 1, tzinfo=timezone.utc), datetime(1999, 12, 31, 23, 59, 59), timedelta(hours=3, seconds=5, microseconds=7)]
 
 
@@ -584,7 +607,7 @@ def drive_typed(O, tier, rng):
     """K2 cases: set_value_and_type with value_type / currency / text / formula arguments through Cell, Row, Table, VarSet;
     reads through get_value(get_type=True): direct and after re-parse"""
     Cell, Row, Table, Element = O.Cell, O.Row, O.Table, O.Element
-    from odfdo.variable import VarSet
+    from odfdo.variable import VarSet, VarGet, UserFieldGet, UserDefined, UserFieldDecl
     CAR, cell_in = carriers(O)
     nums = [0, 1, -7, 42, 10 ** 20, 0.5, -0.25, 1e-7, 1e21, 12.5, Decimal("2.50"), Decimal("-0.001"), Decimal("1E+3"), Decimal("15")]
     reps = history_values()
@@ -610,8 +633,16 @@ def drive_typed(O, tier, rng):
                 t = Table("t"); t.set_value((1, 2), v, cell_type=vt, currency=cur); return t
             builders["Row.set_value(cell_type, currency)"] = (rowb, lambda r: cell_in(node_of(r), 1), lambda r: r.get_value(1, get_type=True))
             builders["Table.set_value(cell_type, currency)"] = (tabb, lambda t: cell_in(node_of(t), 1, 2), lambda t: t.get_value((1, 2), get_type=True))
-            if cur is None:
-                builders["VarSet(value_type)"] = (lambda: VarSet(name="n", value=v, value_type=vt), lambda e: node_of(e), lambda e: e.get_value(get_type=True))
+        if cur is None and fo is None:
+            # every constructor of the text fields that takes value= / value_type= / text=
+            tget = lambda e: e.get_value(get_type=True)
+            nd = lambda e: node_of(e)
+            builders["VarSet(value, value_type, text, display)"] = (lambda: VarSet(name="n", value=v, value_type=vt, text=text, display=bool(text)), nd, tget)
+            builders["VarGet(value, value_type, text)"] = (lambda: VarGet(name="n", value=v, value_type=vt, text=text), nd, tget)
+            builders["UserFieldGet(value, value_type, text)"] = (lambda: UserFieldGet(name="n", value=v, value_type=vt, text=text), nd, tget)
+            builders["UserDefined(value, value_type, text)"] = (lambda: UserDefined(name="n", value=v, value_type=vt, text=text), nd, tget)
+            if text is None:
+                builders["UserFieldDecl(value, value_type)"] = (lambda: UserFieldDecl(name="n", value=v, value_type=vt), nd, tget)
         for name, (build, nodef, rd) in builders.items():
             payload = dict(carrier=name, typed=dict(value=repr(v), cell_type=vt, currency=cur, text=text, formula=fo))
             key = "typed/%s-as-%s%s%s" % (vclass(v), vt or "default", "-currency" if cur else "", "-text" if text else "-formula" if fo else "")
@@ -628,6 +659,52 @@ def drive_typed(O, tier, rng):
                 okn2, node2 = limited(lambda: nodef(obj2)); okr, r = limited(lambda: rd(obj2))
                 reads.append("(%s, %s)" % (abs_elem(node2 if okn2 else None), c_tres(okr, r)))
             out.append((name, payload, "(K2 %s %s (Ok %s) [%s])" % (args, c_val(v), w, "; ".join(reads)), key))
+    return out
+
+
+def drive_from_document(O, vals):
+    """K4 cases: UserDefined(name, from_document=doc) for every value stored in the document's user-defined metadata (the entry wins over the
+    constructor arguments, whatever its value), and for a name the document does not have (the arguments are used)"""
+    Document, Element = O.Document, O.Element
+    from odfdo.variable import UserDefined
+    out = []
+    doc = Document("text")
+    keys = {}
+    for i, v in enumerate(vals):
+        ok, _ = limited(lambda: doc.meta.set_user_defined_metadata("m%d" % i, v))
+        if ok:
+            okr, _r = limited(lambda: doc.meta.get_user_defined_metadata_of_name("m%d" % i))
+            if okr:
+                keys[i] = "m%d" % i
+            else:
+                limited(lambda: doc.meta.set_user_defined_metadata("m%d" % i, "unreadable"))
+    find = lambda key: next((n for n in node_of(doc.meta.root).iter(Q("meta", "user-defined")) if n.get(Q("meta", "name")) == key), None)
+    ctor_variants = [("none", lambda key: UserDefined(name=key, from_document=doc), "None", "VNone"),
+                     ("ctor-value", lambda key: UserDefined(name=key, value="ctor", value_type=None, text="ctor text", from_document=doc), "None", c_val("ctor"))]
+    for i, key in keys.items():
+        v = vals[i]
+        me = abs_elem(find(key), meta=True)
+        for vname, build, vt0, v0 in ctor_variants:
+            payload = dict(carrier="UserDefined(from_document)", fromdoc=dict(value=repr(v), ctor=vname))
+            fkey = "UserDefined.from_document/%s%s" % (vclass(v), "-falsy" if not v else "")
+            ok, obj = limited(lambda: build(key))
+            if not ok:
+                out.append(("UserDefined(from_document)", payload, "(K4 (Some %s) %s %s %s (@Err elem) (@nil read))" % (me, vt0, v0, c_val(v)), fkey)); continue
+            w = abs_elem(node_of(obj))
+            reads = []
+            okr, r = limited(lambda: obj.get_value()); reads.append("(GetET, %s, %s)" % (w, c_res(okr, r)))
+            ok2, obj2 = limited(lambda: Element.from_tag(obj.serialize()))
+            if ok2:
+                okr, r = limited(lambda: obj2.get_value()); reads.append("(GetET, %s, %s)" % (abs_elem(node_of(obj2)), c_res(okr, r)))
+            out.append(("UserDefined(from_document)", payload, "(K4 (Some %s) %s %s %s (Ok %s) [%s])" % (me, vt0, v0, c_val(v), w, "; ".join(reads)), fkey))
+    # a name the document does not know: the constructor's value is used
+    for v in vals[:40]:
+        payload = dict(carrier="UserDefined(from_document)", fromdoc=dict(value=repr(v), ctor="absent-name"))
+        ok, obj = limited(lambda: UserDefined(name="no such entry", value=v, from_document=doc))
+        if not ok:
+            out.append(("UserDefined(from_document)", payload, "(K4 (@None elem) None %s %s (@Err elem) (@nil read))" % (c_val(v), c_val(v)), "UserDefined.from_document/absent-" + vclass(v))); continue
+        w = abs_elem(node_of(obj)); okr, r = limited(lambda: obj.get_value())
+        out.append(("UserDefined(from_document)", payload, "(K4 (@None elem) None %s %s (Ok %s) [(GetET, %s, %s)])" % (c_val(v), c_val(v), w, w, c_res(okr, r)), "UserDefined.from_document/absent-" + vclass(v)))
     return out
 
 
@@ -728,7 +805,7 @@ def py_oracle(O, vals):
 
 
 def finding_key(name, vc):
-    group = "Meta" if name == "Meta" else "Cell.value" if name == "Cell.value=" else "ElementTyped"
+    group = "Meta" if name.startswith("Meta") else "Cell.value" if name == "Cell.value=" else "ElementTyped"
     return "%s/%s" % (group, vc)
 
 
@@ -741,7 +818,7 @@ def run(tier, seed, replay=None):
     hist, meta_hist, vals, only = [], [], [], None
     if replay:
         rp = json.load(open(replay))["case"]
-        if "typed" in rp or "runs" in rp:
+        if "typed" in rp or "runs" in rp or "fromdoc" in rp:
             pass
         elif "steps" in rp:
             if rp["carrier"] == "Meta":
@@ -752,7 +829,11 @@ def run(tier, seed, replay=None):
             vals = [ev(rp["value"])]; only = rp["carrier"]
     else:
         for c in corpus:
-            if "steps" in c:
+            if "fromdoc" in c:
+                vals.append(ev(c["fromdoc"]["value"]))          # every value also goes through UserDefined(from_document=)
+            elif "typed" in c or "runs" in c:
+                continue
+            elif "steps" in c:
                 if c["carrier"] == "Meta": meta_hist.append([ev(x) for _m, x in c["steps"]])
                 else: hist.append((c["carrier"], c["start"], ev(c["first"]), [(m, ev(x)) for m, x in c["steps"]]))
             else:
@@ -774,9 +855,12 @@ def run(tier, seed, replay=None):
     if not replay:
         driven += drive_typed(O, tier, rng)
         driven += drive_runs(O, tier, rng)
+        driven += drive_from_document(O, [v for v in vals if v is not None])
     elif "typed" in rp or "runs" in rp:
         which = drive_typed(O, "thorough", rng) if "typed" in rp else drive_runs(O, "thorough", rng)
         driven = [d for d in which if d[1] == rp]
+    elif "fromdoc" in rp:
+        driven = [d for d in drive_from_document(O, [eval(rp["fromdoc"]["value"], EVAL_NS)]) if d[1] == rp]
     cases = [d[2] for d in driven]
     bad, errors = common.run_shards(HEADER, cases, "chk", "c06", shard=120)
     hard = {i: c for i, c in bad.items() if c not in (FIDELITY, MODEL_ERR)}
